@@ -58,6 +58,8 @@ func queueScenarios(prop string, thorough bool) []Scenario {
 	// startAfter, owned and independent.
 	s = QueueScenario{Name: "startafter-owned", MaxConcurrency: 1, Creates: []string{"Enqueue@5", "Enqueue", "Allow@90"}, MaxCreates: 3, Horizon: 600}
 	add(s)
+	s = QueueScenario{Name: "startafter-forbid-at-limit", MaxConcurrency: 1, Creates: []string{"Enqueue", "Forbid@5", "Forbid@90"}, MaxCreates: 3, Horizon: 600}
+	add(s)
 	s = QueueScenario{Name: "startafter-independent", MaxConcurrency: 1, Creates: []string{"Ind", "Ind@5", "Ind@90", "Ind@0"}, MaxCreates: 2, Horizon: 600}
 	if thorough {
 		s.MaxCreates = 3
@@ -70,6 +72,8 @@ func queueScenarios(prop string, thorough bool) []Scenario {
 	add(s)
 	// Jobs that exist before the controller starts (recovery of the store, restart).
 	s = QueueScenario{Name: "preexisting-restart", MaxConcurrency: 1, Preexisting: []string{"Enqueue", "Enqueue"}, Creates: []string{"Forbid"}, MaxCreates: 3, Horizon: 600, Budget: mc.Budget{Crashes: 1}}
+	add(s)
+	s = QueueScenario{Name: "enqueue2-delete-tombstones", MaxConcurrency: 1, Creates: []string{"Enqueue", "Enqueue"}, MaxCreates: 2, Delete: true, Horizon: 600, Tombstones: true}
 	add(s)
 	// Restart while a started Job is being deleted (held by its finalizer): it still occupies its slot.
 	s = QueueScenario{Name: "enqueue2-delete-crash1", MaxConcurrency: 1, Creates: []string{"Enqueue", "Enqueue"}, MaxCreates: 2, Delete: true, Horizon: 600, Budget: mc.Budget{Crashes: 1}}
